@@ -814,7 +814,21 @@ func checkC08(c *Ctx, r *Report) {
 		}
 		keyF := fmt.Sprintf("%s.%s.RecordFailure", strings.TrimPrefix(b.Pkg, "internal/adapter/"), breakerOwner(b))
 		badStamp := false
-		for _, ret := range returnsMissing(rf, isStamp) {
+		memoStamp := map[*ssa.Function]bool{}
+		deepStamp := func(in ssa.Instruction) bool {
+			if isStamp(in) {
+				return true
+			}
+			// the bookkeeping may live in a method of the state record (`state.markFailure(threshold)`)
+			if cc := getCall(in); cc != nil {
+				if sc := cc.StaticCallee(); sc != nil && c.inRepo(sc) {
+					ok, _ := alwaysReaches(c, sc, isStamp, 3, memoStamp)
+					return ok
+				}
+			}
+			return false
+		}
+		for _, ret := range returnsMissing(rf, deepStamp) {
 			if !nothingToDoReturn(ret) {
 				badStamp = true
 			}
@@ -849,7 +863,7 @@ func checkC08(c *Ctx, r *Report) {
 						}
 					}
 					key := fmt.Sprintf("%s:%s.%s-lowered", fname(f), b.Type, b.FailField)
-					if topParent(f) == rs {
+					if topParent(f) == rs || onlyCalledFrom(c, topParent(f), rs, 2) {
 						r.OK("C08-R6", key, in.Pos(), "failure count cleared by RecordSuccess")
 					} else {
 						r.Bad("C08-R6", key, in.Pos(), "the failure count is lowered outside RecordSuccess; this breaker re-opens after a failed half-open probe only because the count is still at the threshold, so a failed probe would leave it admitting traffic")
@@ -1020,4 +1034,72 @@ func hasGuardFacts(at ssa.Instruction) bool {
 		}
 	}
 	return false
+}
+
+// onlyCalledFrom: every static call of f in the repo sits in `root` or in a function that is itself only called from
+// root (depth d); at least one such call exists. A method the breaker's RecordSuccess delegates to is part of it.
+func onlyCalledFrom(c *Ctx, f, root *ssa.Function, d int) bool {
+	if f == root {
+		return true
+	}
+	if d == 0 {
+		return false
+	}
+	sites := 0
+	ok := true
+	for _, g := range c.Funcs {
+		if g.Blocks == nil {
+			continue
+		}
+		eachInstr(g, func(in ssa.Instruction) {
+			for _, op := range in.Operands(nil) {
+				if op != nil && *op == ssa.Value(f) {
+					cc := getCall(in)
+					if cc == nil || cc.StaticCallee() != f {
+						ok = false // used as a value
+						return
+					}
+				}
+			}
+			if cc := getCall(in); cc != nil && cc.StaticCallee() == f {
+				sites++
+				if !onlyCalledFrom(c, topParent(g), root, d-1) {
+					ok = false
+				}
+			}
+		})
+	}
+	return ok && sites > 0
+}
+
+// breakerBody: a breaker method that does no atomic bookkeeping itself and hands over to exactly one function of its
+// package that does (`return state.rejectsRequests(cb.timeout)`) is examined in that function.
+func breakerBody(c *Ctx, f *ssa.Function) *ssa.Function {
+	for i := 0; i < 2 && f != nil; i++ {
+		own := false
+		var cands []*ssa.Function
+		eachInstr(f, func(in ssa.Instruction) {
+			if _, _, _, _, isA := atomicFieldCall(in); isA {
+				own = true
+			}
+			if cc := getCall(in); cc != nil {
+				if sc := cc.StaticCallee(); sc != nil && sc.Pkg == f.Pkg && sc.Blocks != nil && sc != f {
+					has := false
+					eachInstr(sc, func(i2 ssa.Instruction) {
+						if _, _, _, _, isA := atomicFieldCall(i2); isA {
+							has = true
+						}
+					})
+					if has {
+						cands = append(cands, sc)
+					}
+				}
+			}
+		})
+		if own || len(cands) != 1 {
+			return f
+		}
+		f = cands[0]
+	}
+	return f
 }
